@@ -183,6 +183,9 @@ class Engine(TorchDispatchMode):
         self.mismatches = 0
         self.stub_log = []
         self.tie_flips = 0
+        self.n_inplace_writes = 0
+        self.n_owned_write_checks = 0
+        self.illconditioned = 0
         self.folded_decisions = 0
         self.track_constants = True
         self.registered_svd = []
@@ -283,7 +286,9 @@ class Engine(TorchDispatchMode):
             else:
                 vals = np.broadcast_to(vals, shape)
         k = self.key(t)
+        self.n_inplace_writes += 1
         if k in self.owned and t.numel():
+            self.n_owned_write_checks += 1
             old = np.array(self.view(t), dtype=object, copy=True)
             changed = [(o, n) for o, n in zip(old.reshape(-1), np.asarray(vals, dtype=object).reshape(-1)) if not _same_cell(o, n)]
             if changed:
